@@ -101,7 +101,16 @@ impl<'a, R: Resolve> Walker<'a, R> {
     /// Record one call; `f` returns a digest or an error.
     pub fn call<T>(&mut self, name: impl Into<String>, f: impl FnOnce() -> Result<(String, T), PdfError>) -> Option<T> {
         let name = name.into();
-        match panics::catch(f) {
+        let trace = std::env::var("VH_ALLOC_TRACE").is_ok();
+        let region = if trace { Some(super::alloc::Region::start()) } else { None };
+        let res = panics::catch(f);
+        if let Some(r) = region {
+            let (total, peak) = r.stop();
+            if total > (4 << 20) {
+                eprintln!("ALLOC {} total={} peak={}", name, total, peak);
+            }
+        }
+        match res {
             Ok(Ok((d, v))) => {
                 self.t.entries.push((name, Out::Ok(d)));
                 Some(v)
